@@ -141,6 +141,11 @@ func main() {
 	try(func() { r := a.ZeroT[*int](); record("a.ZeroT", 0, r == nil, false, r) })
 	try(func() { r := a.ZeroT[[]byte](); record("a.ZeroT", 0, r == nil, false, r) })
 	try(func() { r := a.ZeroPtr(); record("a.ZeroPtr", 0, r == nil, false, r) })
+	for _, e := range []error{nil, fmt.Errorf("x")} {
+		try(func() { r := a.First([]error{e}); record("a.First", 0, r == nil, true, r) })
+		try(func() { r := a.FirstErr([]error{e}); record("a.FirstErr", 0, r == nil, true, r) })
+	}
+	try(func() { r := a.First([]*int{nil}); record("a.First", 0, r == nil, false, r) })
 	for key, o := range table {
 		fmt.Println(key, o.returned, o.outerNil, o.outerNon, o.innerNil, o.innerNon)
 	}
